@@ -14,7 +14,7 @@ from ..engine import Outcome, Verdict, crash_verdicts, infra_problem, shrink_lis
 
 ID = "C19"
 RULE = ("case = (codec family, value, delivery schedules, optional corruption). Families: base64 port-to-port encode and decode over binary "
-        "streams (every length mod 3, 0-4096 bytes), JSON read from a stream (depth <= 8, every escape, surrogate pairs, exponents) and "
+        "streams (every length mod 3, 0-4096 bytes; half of the decode texts carry bytes a decoder skips: isolated line ends / blanks or wrapping at a drawn column), JSON read from a stream (depth <= 8, every escape, surrogate pairs, exponents) and "
         "json-write back, CSV read/write with quoting, quoted-printable encode/decode, bytevector numeric accessors applied to bytes read "
         "from a binary stream at offsets len-size .. len+1 in both endiannesses. World: chunk tapes over three port kinds (incl. "
         "would-block), small-buffer variant, forced collections; fault batch: the stored bytes are truncated / torn / bit-flipped / have "
@@ -146,6 +146,16 @@ def generate(rng, tier, index, seed):
         edge = max(0, vr.range(1, 3) * vr.choice([128, 1024, 2223, 2223, 2964, 4096]) + vr.range(-4, 4))
         n = vr.weighted([(vr.range(0, 12), 4), (vr.range(13, 300), 3), (edge, 4), (vr.range(3000, 4096), 1)])
         case["raw"] = rbytes(vr, n).hex()
+        if fam == "b64-decode" and vr.chance(1, 2):
+            # bytes outside the alphabet that a decoder skips (line ends, blanks): isolated ones at drawn places, or wrapping at a drawn
+            # column -- they shift where the 4-character groups fall relative to the streaming decoder's own block, so that a block
+            # ends with 1, 2 or 3 characters of a group carried over to the next one
+            m = (n + 2) // 3 * 4
+            if vr.chance(1, 2):
+                case["junk"] = [[vr.range(0, m), vr.choice([10, 10, 13, 32])] for _ in range(vr.choice([1, 1, 2, 3, 5, 6, 7]))]
+            else:
+                w, eol = vr.choice([76, 64, 60, vr.range(1, 90)]), vr.choice([[10], [13, 10]])
+                case["junk"] = [[i, b] for i in range(w, m + 1, w) for b in eol][:4000]
     elif fam == "json":
         case["json"] = json.dumps(gen_json(vr, vr.range(1, 8)), ensure_ascii=vr.chance(1, 2))
     elif fam == "csv":
@@ -193,7 +203,11 @@ def stored_bytes(case):
     if fam == "b64-encode":
         return bytes.fromhex(case["raw"])
     if fam == "b64-decode":
-        return base64.b64encode(bytes.fromhex(case["raw"]))
+        enc = bytearray(base64.b64encode(bytes.fromhex(case["raw"])))
+        # skipped bytes are inserted from the back so that the positions refer to the clean text
+        for pos, b in reversed(sorted(case.get("junk", []), key=lambda x: x[0])):
+            enc.insert(min(pos, len(enc)), b)
+        return bytes(enc)
     if fam == "json":
         return case["json"].encode("utf-8")
     if fam == "csv":
